@@ -422,10 +422,13 @@ func (w *Worker) intrinsic(s *State, f *Frame, name string, fn *ssa.Function, ar
 		case "Timers":
 			return adv(BV(64, ghostInt(s, "afterfunc/n")))
 		}
+		if w.intrinsicBytes(s, name[len(rtp):], args, adv) {
+			return true
+		}
 		if w.intrinsicEnv(s, f, name[len(rtp):], args, adv) {
 			return true
 		}
-		if sub := name[len(rtp):]; sub == "init" || strings.HasPrefix(sub, "Model") || strings.HasPrefix(sub, "init#") {
+		if sub := name[len(rtp):]; sub == "init" || strings.HasPrefix(sub, "Model") || strings.HasPrefix(sub, "Mem") || strings.HasPrefix(sub, "mem") || strings.HasPrefix(sub, "(") || strings.HasPrefix(sub, "init#") {
 			return false
 		}
 		unsupported("unknown verifrt function %s", name)
@@ -559,6 +562,11 @@ func (w *Worker) intrinsic(s *State, f *Frame, name string, fn *ssa.Function, ar
 		j.stub("error-constructor")
 		return adv(Iface{t: opaqueErrType, v: Opaque{"error"}})
 	case name == "fmt.Sprintf", name == "fmt.Sprint", name == "fmt.Sprintln":
+		if name == "fmt.Sprintf" && ghostInt(s, "flag/memfs") != 0 {
+			if v, ok := w.hostSprintf(s, args); ok {
+				return adv(v)
+			}
+		}
 		j.stub("fmt.Sprintf")
 		return adv("<sprintf>")
 	case name == "fmt.Println", name == "fmt.Printf", name == "fmt.Print", name == "fmt.Fprintf", name == "fmt.Fprintln":
@@ -653,6 +661,9 @@ func (w *Worker) intrinsic(s *State, f *Frame, name string, fn *ssa.Function, ar
 		return adv(nil)
 	case name == "(*sync/atomic.Value).Load":
 		return adv(s.load(args[0].(Ptr).field(0)))
+	}
+	if w.intrinsicHost(s, f, name, fn, args, adv) {
+		return true
 	}
 	return w.intrinsicFiles(s, f, name, fn, args, adv)
 }
